@@ -53,29 +53,32 @@ type Effect struct {
 }
 
 type Contract struct {
-	Func       string
-	Props      []string
-	Mode       string
-	Requires   []*Clause
-	Ensures    []*Clause
-	Loops      map[int]*LoopSpec
-	Fresh      []*FreshVar
-	Subst      map[string]ast.Expr
-	SubstSrc   map[string]string
-	Inline     bool
-	Pure       bool
-	Trusted    bool
-	Modifies   []string
-	Effects    []*Effect
-	Line       int
-	NoSafety   bool                 // do not emit implicit safety obligations (used for spec helpers)
-	Callbacks  map[string]*Contract // contracts for func-typed params
-	Notes      []string
-	Lemma      bool // pure lemma: no body, requires ==> ensures checked as a formula
-	LemmaVars  []QVar
-	MaxPaths   int
-	MergeExits bool
-	Uses       []string // quantified callee clauses to assume at call sites: "callee.clause" or "callee.*"
+	Func        string
+	Props       []string
+	Mode        string
+	Requires    []*Clause
+	Ensures     []*Clause
+	Loops       map[int]*LoopSpec
+	Fresh       []*FreshVar
+	Subst       map[string]ast.Expr
+	SubstSrc    map[string]string
+	Inline      bool
+	Pure        bool
+	Trusted     bool
+	Modifies    []string
+	Effects     []*Effect
+	Line        int
+	NoSafety    bool                 // do not emit implicit safety obligations (used for spec helpers)
+	Callbacks   map[string]*Contract // contracts for func-typed params
+	Notes       []string
+	Lemma       bool // pure lemma: no body, requires ==> ensures checked as a formula
+	LemmaVars   []QVar
+	MaxPaths    int
+	MergeExits  bool
+	GuardsOn    bool
+	Writes      []string // slice parameters whose elements the function writes
+	SafetyProps []string
+	Uses        []string // quantified callee clauses to assume at call sites: "callee.clause" or "callee.*"
 }
 
 type UFDecl struct {
@@ -88,6 +91,22 @@ type PredDecl struct {
 	Name   string
 	Params []QVar
 	Body   ast.Expr
+}
+
+type GuardDecl struct {
+	Pattern string // "Struct.field" or "Struct.*"
+	Ghost   string
+}
+
+func (g *GuardDecl) matches(structName, field string) bool {
+	if g.Pattern == structName+".*" || g.Pattern == structName {
+		return true
+	}
+	if g.Pattern == structName+"."+field {
+		return true
+	}
+	// nested value fields: "Struct.field.sub"
+	return strings.HasPrefix(structName+"."+field+".", g.Pattern+".")
 }
 
 type GhostField struct {
@@ -104,6 +123,11 @@ type ContractFile struct {
 	PropsOf     map[string][]string
 	defs        map[string][]string
 	Preds       map[string]*PredDecl
+	Ghosts      map[string]string
+	Guards      []*GuardDecl
+	OnWrite     []*GuardDecl
+	TypeInvs    []*GuardDecl
+	Immutable   []string
 }
 
 var reName = regexp.MustCompile(`^([A-Za-z_][A-Za-z0-9_.\-]*):\s+(.*)$`)
@@ -418,6 +442,42 @@ func (cf *ContractFile) parseOne(path string) error {
 				cf.Preds = map[string]*PredDecl{}
 			}
 			cf.Preds[d.Name] = d
+		case "ghost":
+			// ghost NAME TYPE : ghost global
+			f := strings.Fields(rest)
+			if len(f) != 2 {
+				return fail(fmt.Errorf("ghost NAME TYPE"))
+			}
+			if cf.Ghosts == nil {
+				cf.Ghosts = map[string]string{}
+			}
+			cf.Ghosts[f[0]] = f[1]
+		case "guarded":
+			// guarded PATTERN... by GHOST
+			l, r, ok := strings.Cut(rest, " by ")
+			if !ok {
+				return fail(fmt.Errorf("guarded PATTERNS by GHOST"))
+			}
+			for _, pat := range strings.Fields(l) {
+				cf.Guards = append(cf.Guards, &GuardDecl{Pattern: pat, Ghost: strings.TrimSpace(r)})
+			}
+		case "onwrite":
+			// onwrite PATTERN... set GHOST
+			l, r, ok := strings.Cut(rest, " set ")
+			if !ok {
+				return fail(fmt.Errorf("onwrite PATTERNS set GHOST"))
+			}
+			for _, pat := range strings.Fields(l) {
+				cf.OnWrite = append(cf.OnWrite, &GuardDecl{Pattern: pat, Ghost: strings.TrimSpace(r)})
+			}
+		case "immutable":
+			cf.Immutable = append(cf.Immutable, strings.Fields(rest)...)
+		case "typeinv":
+			f := strings.Fields(rest)
+			if len(f) != 2 {
+				return fail(fmt.Errorf("typeinv STRUCT PRED"))
+			}
+			cf.TypeInvs = append(cf.TypeInvs, &GuardDecl{Pattern: f[0], Ghost: f[1]})
 		case "ghostfield":
 			// ghostfield Struct.field type
 			f := strings.Fields(rest)
@@ -469,6 +529,12 @@ func (cf *ContractFile) parseOne(path string) error {
 				c.Ensures = append(c.Ensures, cl)
 			case "use":
 				c.Uses = append(c.Uses, strings.Fields(strings.ReplaceAll(rest, ",", " "))...)
+			case "safetyprop":
+				c.SafetyProps = strings.Fields(strings.ReplaceAll(rest, ",", " "))
+			case "writes":
+				c.Writes = append(c.Writes, strings.Fields(strings.ReplaceAll(rest, ",", " "))...)
+			case "guards":
+				c.GuardsOn = rest == "on"
 			case "inline":
 				c.Inline = true
 			case "pure":
